@@ -1063,6 +1063,11 @@ fn run(c: &mut Case) {
         Err(cg) => {
             c.violation(format!("C18/easy-macro-{}", cg.sig()), format!("easy_ebml! {}", cg.text()), wit("macro panicked"));
         }
+        Ok(Err(er)) if er.starts_with("re-parse of lowered easy_ebml") || er.starts_with("lowered easy_ebml does not carry") => {
+            // the harness expands the easy form in two steps (lowering to the attribute form, then the shared expansion);
+            // a macro that no longer lowers that way is not wrong for it: not comparable here, judged by the compiled stage
+            c.count("easy_form_lowering_not_interpretable");
+        }
         Ok(Err(er)) => {
             c.violation("C18/rejects-wellformed/easy-form", format!("well-formed easy_ebml declaration rejected: {}", er), wit(&er));
         }
